@@ -2,7 +2,7 @@
 
 Model: spec/registry/Registry.tla (+ Validate.tla). Binding: spec -> code replay of the
 complete transition graph of a bounded model and of simulated walks on a real Broker."""
-import json, os, time, concurrent.futures as cf
+import shutil, json, os, time, concurrent.futures as cf
 from vlib import *
 
 PROPS = ["C05", "C06", "C07", "C20"]
@@ -93,6 +93,82 @@ def light_binding(vh, scr, seed, quick):
             g = must_pass(f.result(), "registry export " + tag)
             reps.append((tag, replay(vh, scr, sd, edges=g.out_path, tag=tag), g))
     return reps
+
+
+RTRACE_CFG = """SPECIFICATION TSpec
+CONSTANTS
+  Types = {"t"}
+  PIDs = {"p", "q"}
+  NIDs = {"a", "m", "s", "g"}
+  Lists <- TrLists
+  KindOf <- TrKind
+  CloseFails = {}
+  PreNodes = {}
+  ThrVals <- TrThr
+  MaxDepth = 100000
+  Dev = {}
+VIEW TView
+INVARIANTS Report RefcMatches NoDoubleClose ListedAreRegistered OnlyWellFormedRegistered
+CHECK_DEADLOCK FALSE
+"""
+
+
+def validate_hist(scr, hist, tag):
+    wd = scr.path("tlc-rtrace-" + tag)
+    shutil.copytree(os.path.join(VERIF, "spec", "registry"), wd)
+    shutil.copy(hist, os.path.join(wd, "rconc.ndjson"))
+    res = run_tlc(scr, "registry", "RegistryTrace", RTRACE_CFG, "rtrace-" + tag, workers=8, timeout=2400, heap="8g")
+    acc = set()
+    for line in open(res.out_path, errors="replace"):
+        if line.startswith('<<"ACCEPT"'):
+            acc.add(int(line.strip().strip("<>").split(",")[1]))
+    ids = [json.loads(l)["id"] for l in open(hist) if l.strip()]
+    return acc, ids, res
+
+
+def conc_traces(vh, scr, prop, seed, quick, out):
+    """Code -> spec: concurrent histories of the registry API, linearised by TLC against Registry.tla's own actions."""
+    hist = scr.path("rconc.ndjson")
+    t0 = time.time()
+    p = run_vh(vh, ["registry-hist", "-seed", str(seed), "-n", "240" if quick else "3000", "-hist", hist], timeout=1800)
+    if p.returncode != 0:
+        if "panic" in p.stderr or "fatal error" in p.stderr:
+            out.violation("the process died during concurrent registry calls: " + p.stderr[:300], {"stderr": p.stderr[-4000:]})
+            return 0
+        raise Broken("registry-hist failed: " + p.stderr[-1500:])
+    acc, ids, res = validate_hist(scr, hist, "real")
+    if res.error:
+        raise Broken("RegistryTrace validation failed: " + str(res.error))
+    if res.violated and res.violated != "Report":
+        raise Broken("RegistryTrace: invariant %s violated on a matched prefix (specification error)" % res.violated)
+    out.add_tlc(res)
+    log("  registry-hist %5.1fs histories=%d accepted=%d" % (time.time() - t0, len(ids), len(acc)))
+    hs = {json.loads(l)["id"]: json.loads(l) for l in open(hist) if l.strip()}
+    for i in ids:
+        if i not in acc:
+            out.violation("concurrent registry history %d (%d goroutines) has no linearisation: the results of the calls and the quiescent state (which nodes are in use / unused / "
+                          "unknown, whether a pipeline is registered) are not those of any order of atomic calls" % (i, hs[i]["g"]), {"history": hs[i]})
+    # binding self-test: change the result of one of the sequential probes at the end
+    cp = scr.path("rconc-corrupt.ndjson")
+    k = 0
+    with open(cp, "w") as f:
+        for l in open(hist):
+            h = json.loads(l)
+            probes = [r for r in h["h"] if r["k"] == "resp" and r["r"] in ("inuse", "ok", "notfound")]
+            if len(probes) < 4:
+                continue
+            r = probes[-1 - (k % 4)]
+            r["r"] = {"inuse": "ok", "ok": "inuse", "notfound": "ok"}[r["r"]]
+            f.write(json.dumps(h) + "\n")
+            k += 1
+            if k >= 12:
+                break
+    acc2, ids2, res2 = validate_hist(scr, cp, "selftest")
+    if k < 5 or acc2:
+        raise Broken("registry self-test: corrupted histories accepted: %s (of %d)" % (sorted(acc2)[:5], k))
+    out.notes.append("binding self-test: %d histories with one quiescent probe result changed were all rejected by RegistryTrace" % k)
+    out.coverage["concurrent_histories_validated"] = len(ids)
+    return len(ids)
 
 
 def run(prop, tier, seed, out):
@@ -207,6 +283,7 @@ def run(prop, tier, seed, out):
             out.coverage["apalache_obligations_discharged"] = [nm for nm, _ in obligations]
             out.notes.append("Apalache: IndInv (RefcMatches, ListedAreRegistered, ...) is inductive for RegistryInd: the accounting holds for histories of any length")
         if prop in ("C05", "C06", "C07"):
+            conc_traces(vh, scr, prop, seed, quick, out)
             # concurrent clients: overwrites racing with Sends (every Send is processed by exactly one version), DenyOverwrite races,
             # conflicting registry calls released from a barrier (results and final state of one of the two sequential orders)
             hp, rp = scr.path("c07.ndjson"), scr.path("c07.json")
